@@ -40,7 +40,38 @@ def _is_const_expr(e):
         return True
     if isinstance(e, ast.Tuple) and all(_is_const_expr(x) for x in e.elts):
         return True
+    if _frozenset_elements(e) is not None:
+        return True
     return False
+
+
+def _frozenset_elements(e):
+    """the elements of `frozenset("abc")` / `frozenset({"a", "b"})` / `frozenset(("a", "b"))` when all are literals"""
+    if isinstance(e, ast.Call) and isinstance(e.func, ast.Name) and e.func.id == "frozenset" and len(e.args) == 1 and not e.keywords:
+        a = e.args[0]
+        if isinstance(a, ast.Constant) and isinstance(a.value, (str, bytes)):
+            vals = [a.value[i:i + 1] for i in range(len(a.value))] if isinstance(a.value, str) else list(a.value)
+            return vals
+        if isinstance(a, (ast.Set, ast.List, ast.Tuple)) and all(isinstance(x, ast.Constant) and isinstance(x.value, (str, int, bytes)) for x in a.elts):
+            return [x.value for x in a.elts]
+    return None
+
+
+def frozensets_in_membership(tree):
+    """`x in frozenset("0123456789")` is `x in {"0", …, "9"}`"""
+    class T(ast.NodeTransformer):
+        def visit_Compare(self, n):
+            self.generic_visit(n)
+            if len(n.ops) == 1 and isinstance(n.ops[0], (ast.In, ast.NotIn)):
+                vals = _frozenset_elements(n.comparators[0])
+                if vals is not None and vals:
+                    uniq = []
+                    for x in vals:
+                        if x not in uniq:
+                            uniq.append(x)
+                    n.comparators[0] = ast.copy_location(ast.Set(elts=[ast.Constant(value=x) for x in uniq]), n.comparators[0])
+            return n
+    return T().visit(tree)
 
 
 def _bound_names(fn):
@@ -336,6 +367,78 @@ def inline_expression_helpers(tree, public):
     return tree
 
 
+def push_call_into_branches(tree):
+    """`if c1: f = g1 elif c2: f = g2 [else: raise …]` immediately followed by the only use of `f`, a call
+    `x = f(args)` / `return f(args)`: the call is moved into the branches with `f` replaced by the function chosen
+    there (`g1`, `g2` names of module-level functions).  The arguments are evaluated after the choice in both
+    readings, and a branch that raises never reached the call."""
+    top_fns = {n.name for n in tree.body if isinstance(n, ast.FunctionDef)}
+
+    def chain(st):
+        """the branches of an if/elif/else chain, as (body lists), or None"""
+        out = []
+        while True:
+            out.append(st.body)
+            if len(st.orelse) == 1 and isinstance(st.orelse[0], ast.If):
+                st = st.orelse[0]
+                continue
+            if st.orelse:
+                out.append(st.orelse)
+            return out
+
+    def per_function(fn):
+        uses = {}
+        for n in ast.walk(fn):
+            if isinstance(n, ast.Name):
+                uses.setdefault(n.id, []).append(n)
+
+        def f(stmts):
+            out = []
+            i = 0
+            while i < len(stmts):
+                s = stmts[i]
+                nxt = stmts[i + 1] if i + 1 < len(stmts) else None
+                done = False
+                if isinstance(s, ast.If) and nxt is not None:
+                    branches = chain(s)
+                    names = set()
+                    ok = True
+                    for b in branches:
+                        last = b[-1] if b else None
+                        if isinstance(last, ast.Raise):
+                            continue
+                        if len(b) == 1 and isinstance(last, ast.Assign) and len(last.targets) == 1 and isinstance(last.targets[0], ast.Name) \
+                                and isinstance(last.value, ast.Name) and last.value.id in top_fns:
+                            names.add(last.targets[0].id)
+                        else:
+                            ok = False
+                    call = nxt.value if isinstance(nxt, (ast.Assign, ast.Return)) else None
+                    if ok and len(names) == 1 and isinstance(call, ast.Call) and isinstance(call.func, ast.Name) and call.func.id in names \
+                            and not (isinstance(nxt, ast.Assign) and not (len(nxt.targets) == 1 and isinstance(nxt.targets[0], ast.Name))):
+                        f_name = call.func.id
+                        nassign = sum(1 for b in branches if b and isinstance(b[-1], ast.Assign))
+                        # every occurrence of the name is one of the branch assignments or this one call
+                        if len(uses.get(f_name, [])) == nassign + 1 and f_name not in top_fns:
+                            for b in branches:
+                                if b and isinstance(b[-1], ast.Assign):
+                                    new = copy.deepcopy(nxt)
+                                    new.value.func = ast.Name(id=b[-1].value.id, ctx=ast.Load())
+                                    b[-1] = ast.copy_location(new, b[-1])
+                            out.append(s)
+                            i += 2
+                            done = True
+                if not done:
+                    out.append(s)
+                    i += 1
+            return out
+        fn.body = _map_body(fn.body, f)
+
+    for n in ast.walk(tree):
+        if isinstance(n, ast.FunctionDef):
+            per_function(n)
+    return tree
+
+
 def _inlinable(fn):
     a = fn.args
     if a.vararg or a.kwarg or a.kwonlyargs or a.posonlyargs or a.defaults or fn.decorator_list:
@@ -519,11 +622,13 @@ def normalise_light(tree, signatures=None, aliases=None):
 
 def normalise(tree, public=(), signatures=None, aliases=None):
     tree = inline_constants(tree)
+    tree = frozensets_in_membership(tree)
     tree = fold_zero_bytes(tree)
     tree = drop_zero_lower_bounds(tree)
     tree = split_chained_compares(tree)
     tree = ifexp_to_if(tree)
     tree = unroll_constant_loops(tree)
+    tree = push_call_into_branches(tree)
     tree = split_none_elif(tree)
     tree = inline_expression_helpers(tree, set(public))
     tree = inline_helpers(tree, set(public))
